@@ -137,6 +137,10 @@ void EGLPNUM_TYPENAME_ILLstart ( void)
 	/* parameters that do depend on the tolerance to zero */
 	EGLPNUM_TYPENAME_EGlpNumSet (EGLPNUM_TYPENAME_PARAM_MIN_DNORM, 4.5036e-9);
 	EGLPNUM_TYPENAME_EGlpNumMultTo (EGLPNUM_TYPENAME_PARAM_MIN_DNORM, EGLPNUM_TYPENAME_epsLpNum);
+	/* the floor of the steepest edge weights is used as a divisor: it has to be
+	 * positive in exact arithmetic too, where the zero tolerance is 0 */
+	if (!EGLPNUM_TYPENAME_EGlpNumIsNeqqZero (EGLPNUM_TYPENAME_PARAM_MIN_DNORM))
+		EGLPNUM_TYPENAME_EGlpNumSet (EGLPNUM_TYPENAME_PARAM_MIN_DNORM, 1e-24);
 	EGLPNUM_TYPENAME_EGlpNumSet (EGLPNUM_TYPENAME_PFEAS_TOLER, 4.5036e9);
 	EGLPNUM_TYPENAME_EGlpNumMultTo (EGLPNUM_TYPENAME_PFEAS_TOLER, EGLPNUM_TYPENAME_epsLpNum);
 	EGLPNUM_TYPENAME_EGlpNumSet (EGLPNUM_TYPENAME_BD_TOLER, 4.5036e8);
@@ -213,6 +217,10 @@ void EGLPNUM_TYPENAME_ILLchange_precision (
 	/* parameters that do depend on the tolerance to zero */
 	EGLPNUM_TYPENAME_EGlpNumSet (EGLPNUM_TYPENAME_PARAM_MIN_DNORM, 4.5036e-9);
 	EGLPNUM_TYPENAME_EGlpNumMultTo (EGLPNUM_TYPENAME_PARAM_MIN_DNORM, EGLPNUM_TYPENAME_epsLpNum);
+	/* the floor of the steepest edge weights is used as a divisor: it has to be
+	 * positive in exact arithmetic too, where the zero tolerance is 0 */
+	if (!EGLPNUM_TYPENAME_EGlpNumIsNeqqZero (EGLPNUM_TYPENAME_PARAM_MIN_DNORM))
+		EGLPNUM_TYPENAME_EGlpNumSet (EGLPNUM_TYPENAME_PARAM_MIN_DNORM, 1e-24);
 	EGLPNUM_TYPENAME_EGlpNumSet (EGLPNUM_TYPENAME_PFEAS_TOLER, 4.5036e9);
 	EGLPNUM_TYPENAME_EGlpNumMultTo (EGLPNUM_TYPENAME_PFEAS_TOLER, EGLPNUM_TYPENAME_epsLpNum);
 	EGLPNUM_TYPENAME_EGlpNumSet (EGLPNUM_TYPENAME_BD_TOLER, 4.5036e8);
